@@ -63,6 +63,12 @@ func Spec(id, tier string) *core.CheckSpec {
 				cs.Batches = append(cs.Batches, core.Batch{Engine: "chainsim", Label: "mainnet-preset", Seconds: 400, Opt: core.Options{Params: p("preset", "mainnet")}})
 			}
 		}
+		if id == "C15" {
+			// typed sub-views made from values of every container type: getters by position
+			cs.Batches[0].Seconds = sec(50, 500)
+			cs.Batches[1].Seconds = sec(25, 250)
+			cs.Batches = append(cs.Batches, core.Batch{Engine: "codecsim", Label: "sub-view-getters", Seconds: sec(12, 150), Opt: core.Options{}})
+		}
 		if id == "C04" || id == "C05" {
 			// every exported SSZ type behind the stream seam (object store with faulty disk and wire)
 			cs.Batches[0].Seconds = sec(40, 500)
